@@ -55,7 +55,7 @@ func (r *runner) hammer(a int, stop <-chan struct{}, wg *sync.WaitGroup) {
 			r.traffic.ok++
 			r.traffic.mu.Unlock()
 		}
-		time.Sleep(100 * time.Microsecond)
+		time.Sleep(250 * time.Microsecond)
 	}
 }
 
@@ -84,6 +84,11 @@ func newRunner(e *env, sc scenario) *runner {
 	for i, ts := range sc.toks {
 		id := fmt.Sprintf("k%d", i)
 		r.tokens[id] = &token{id: id, spec: ts, accepted: make(chan int, 1), release: make(chan struct{}), done: make(chan [2]string, 1), acceptor: -1}
+	}
+	for a := 0; a < nAddr; a++ {
+		for _, c := range sc.cfgs {
+			r.used[a] = r.used[a] || c.has(a)
+		}
 	}
 	r.lo.Store(-1)
 	r.hi.Store(-1)
